@@ -116,6 +116,8 @@ def replay_matching(chk, label, consts, geo, workers=8, procs=12, timeout=3000):
              for k, v in by_inst.items()]
     random.Random(seed()).shuffle(items)
     lookup = {k: (i, a) for k, i, a, _ in items}
+    if not geo:
+        step_level(chk, [it[1] for it in items[:4000]], "TraceMatching (loop steps) for " + label)
     jobs = [(items[i:i + 400], geo) for i in range(0, len(items), 400)]
     with mp.Pool(procs) as pool:
         for out in pool.imap_unordered(_worker, jobs):
@@ -145,3 +147,82 @@ def replay_file(chk, rp):
             chk.violation("replayed: %s returned %s" % (bad[0], bad[1]), rp)
     chk.count("evaluations"); chk.count("distinct_nontrivial", 2); chk.count("traces_validated_against_impl")
     chk.sample(rp["inst"])
+
+
+# ---------------------------------------------------------------------------
+# step-level trace validation of the real loop (TraceMatching.tla)
+# ---------------------------------------------------------------------------
+class _Stack(list):
+    """candidate list whose pop() is recorded: one Propose(storm, rise) per loop iteration"""
+
+    def __init__(self, items, storm, log):
+        super().__init__(items)
+        self.storm, self.log = storm, log
+
+    def pop(self, *a):
+        r = super().pop(*a)
+        self.log.append([self.storm, r])
+        return r
+
+
+def loop_trace(inst, order_seed, cid):
+    import spowtd.classify as c
+    E = [tuple(e) for e in inst["E"]]
+    dur = {tuple(k): v for k, v in inst["dur"]}
+    off = {tuple(k): v for k, v in inst["off"]}
+    rng = random.Random(order_seed)
+    rng.shuffle(E)
+    storms, rises = {}, {}
+    for s, r in E:
+        storms.setdefault(s, []).append(r)
+        rises.setdefault(r, []).append(s)
+    log = []
+    cand = {s: _Stack(sorted(rs, key=lambda r, s=s: -abs(float(dur[(s, r)]))), s, log) for s, rs in storms.items()}
+    prefs = {r: {s: -abs(off[(s, r)]) for s in ss} for r, ss in rises.items()}
+    try:
+        m = c.find_stable_matching(cand, prefs)
+    except Exception as e:  # noqa
+        return None, "%s: %s" % (type(e).__name__, e)
+    Es = sorted(E)
+    return {"id": cid, "E": [list(e) for e in Es], "dur": [dur[e] for e in Es], "off": [off[e] for e in Es],
+            "proposals": log, "M": sorted([s, r] for r, s in m.items())}, None
+
+
+def step_level(chk, insts, label):
+    """insts: list of abstract instances (E, dur, off as emitted by MCMatching)"""
+    import os
+    from .common import workdir, rm
+    cases = []
+    for i, inst in enumerate(insts):
+        if not inst["E"]:
+            continue
+        t, err = loop_trace(inst, i, i)
+        chk.count("evaluations")
+        if err:
+            chk.violation("find_stable_matching raised on %s: %s" % (json.dumps(inst), err),
+                          {"kind": "matching_instance", "inst": inst, "allowed": [], "geo": False, "observed": err,
+                           "via": "exception"})
+            continue
+        cases.append(t)
+    wd = workdir("tmatch")
+    try:
+        path = os.path.join(wd, "cases.json")
+        json.dump(cases, open(path, "w"))
+        res = tlc.run("TraceMatching", "SPECIFICATION Spec\nPOSTCONDITION AllConsumed\nCHECK_DEADLOCK FALSE\n",
+                      workers=1, env={"TRACE_FILE": path}, timeout=1800)
+    finally:
+        rm(wd)
+    chk.add_tlc(res, label)
+    if not res["ok"]:
+        raise MachineryError("TraceMatching did not finish all traces: %s\n%s" % (res["error"][:600], res["tail"][-400:]))
+    chk.count("traces_validated_against_impl", len(cases))
+    chk.count("loop_traces", len(cases))
+    chk.count("loop_events", sum(len(c["proposals"]) for c in cases))
+    if cases:
+        big = max(cases, key=lambda c: len(c["proposals"]))
+        chk.sample({"loop_trace": big})
+    by = {c["id"]: c for c in cases}
+    for f in res["fails"]:
+        chk.violation("step-level trace of the real loop rejected by Matching.tla: %s (event %s of %s)" % (
+            f["clause"], f["stretch"], json.dumps(by[f["id"]])),
+            {"kind": "loop_trace", "case": by[f["id"]], "clause": f["clause"]})
